@@ -33,6 +33,8 @@ def src_callee_desc(prog, callee, in_auto):
     while callee.startswith("schedule.reverse("):
         callee = callee[len("schedule.reverse("):-1]
         rev = not rev
+    if callee in getattr(prog, "param_devs", ()):
+        return ("rev:" if rev else "fwd:") + "arg:" + callee
     for var, kern, r in prog.devs:
         if var == callee:
             return dev_desc(kern, rev != r)
@@ -164,6 +166,9 @@ def ir_callee_desc(v):
     from bloqade.shuttle.dialects import schedule
     v = resolve(v)
     o = getattr(v, "owner", None)
+    from kirin import ir as _ir
+    if isinstance(v, _ir.BlockArgument) and v.name:
+        return "fwd:arg:" + v.name            # a device function received as a kernel parameter
     isc, val = const_of(v)
     if isc:
         if isinstance(val, schedule.DeviceFunction):
@@ -289,7 +294,7 @@ def run(ctx):
                                body=[move_prog.shape_to_block(sh, counter)])
         check_prog(ctx, prog, cases, "shape")
     for i in range(ctx.pick(150, 2000)):
-        prog = move_prog.gen_move_prog(ctx.rng, depth=4, const_control=False)
+        prog = move_prog.gen_move_prog(ctx.rng, depth=4, const_control=False, param_dev=ctx.rng.random() < 0.5)
         for t in prog.tags:
             ctx.hist("program_features", t)
         check_prog(ctx, prog, cases, "rand")
